@@ -45,6 +45,11 @@ type LinearState struct {
 	cachedRules map[string]*Rule
 	cacheMutex  sync.Mutex
 
+	// cacheGen counts the invalidations of cachedRules (also
+	// protected by cacheMutex).  A rule that was read from the
+	// state before an invalidation must not be cached after it.
+	cacheGen uint64
+
 	store Storage
 
 	addHook AddHookFn
@@ -157,7 +162,10 @@ func (s *LinearState) Load(ctx *Context) error {
 
 func (s *LinearState) Add(ctx *Context, id string, x Map) (string, error) {
 	Log(DEBUG, ctx, "LinearState.Add", "state", s.Name, "x", x, "id", id)
+	// The cached rule is dropped before and after the update: an event
+	// that read the former rule in between must not cache it.
 	s.uncacheRule(id)
+	defer s.uncacheRule(id)
 	timer := NewTimer(ctx, "LinearState.Add")
 	defer timer.Stop()
 
@@ -224,7 +232,10 @@ func (s *LinearState) Rem(ctx *Context, id string) (bool, error) {
 
 func (s *LinearState) rem(ctx *Context, id string, lock bool) (bool, error) {
 	Log(DEBUG, ctx, "LinearState.rem", "id", id)
+	// The cached rule is dropped before and after the update: an event
+	// that read the former rule in between must not cache it.
 	s.uncacheRule(id)
+	defer s.uncacheRule(id)
 	// Storage and memory are updated in one locked section (see Add).
 	if lock {
 		s.slock(ctx, false)
@@ -422,6 +433,11 @@ func (s *LinearState) FindCachedRules(ctx *Context, event Map) (map[string]*Rule
 	timer := NewTimer(ctx, "LinearState.FindCachedRules")
 	defer timer.Stop()
 
+	// The rules are read from the state under its lock and cached
+	// after that lock has been released: a rule that was replaced or
+	// removed in between must not end up in the cache.
+	gen := s.cacheGeneration()
+
 	rules, err := s.doFindRules(ctx, event)
 	if err != nil {
 		return nil, err
@@ -437,7 +453,7 @@ func (s *LinearState) FindCachedRules(ctx *Context, event Map) (map[string]*Rule
 				return nil, err
 			}
 			rule.Id = id
-			acc[id] = s.cacheRule(id, rule)
+			acc[id] = s.cacheRule(id, rule, gen)
 		}
 	}
 	return acc, nil
@@ -529,14 +545,24 @@ func (s *LinearState) cachedRule(id string) *Rule {
 	return rule
 }
 
-// cacheRule remembers the given rule unless another request did so
-// in the meantime.  Returns the cached rule.
-func (s *LinearState) cacheRule(id string, rule *Rule) *Rule {
+func (s *LinearState) cacheGeneration() uint64 {
 	s.cacheMutex.Lock()
-	if cached, have := s.cachedRules[id]; have {
-		rule = cached
-	} else {
-		s.cachedRules[id] = rule
+	gen := s.cacheGen
+	s.cacheMutex.Unlock()
+	return gen
+}
+
+// cacheRule remembers the given rule unless another request did so
+// in the meantime, or the cache was invalidated since the given
+// generation was read.  Returns the rule to use.
+func (s *LinearState) cacheRule(id string, rule *Rule, gen uint64) *Rule {
+	s.cacheMutex.Lock()
+	if s.cacheGen == gen {
+		if cached, have := s.cachedRules[id]; have {
+			rule = cached
+		} else {
+			s.cachedRules[id] = rule
+		}
 	}
 	s.cacheMutex.Unlock()
 	return rule
@@ -545,11 +571,13 @@ func (s *LinearState) cacheRule(id string, rule *Rule) *Rule {
 func (s *LinearState) uncacheRule(id string) {
 	s.cacheMutex.Lock()
 	delete(s.cachedRules, id)
+	s.cacheGen++
 	s.cacheMutex.Unlock()
 }
 
 func (s *LinearState) uncacheRules() {
 	s.cacheMutex.Lock()
 	s.cachedRules = make(map[string]*Rule)
+	s.cacheGen++
 	s.cacheMutex.Unlock()
 }
